@@ -11,6 +11,7 @@ INVARIANT ShapeExact
 INVARIANT Pointwise
 INVARIANT PointwiseDecode
 INVARIANT PointwiseSpecial
+INVARIANT Aggregated
 INVARIANT Trimmed
 INVARIANT Repeated
 INVARIANT Uncovered
@@ -21,3 +22,4 @@ INVARIANT FitIdempotent
 INVARIANT Export
 PROPERTY TargetGrowthStable
 PROPERTY OperandGrowthLocal
+PROPERTY WrapAggregates
